@@ -530,7 +530,10 @@ pub fn group(ctx: &Ctx, g: u64) -> Vec<Case> {
         }
         // servers with a puncture history (all 256 tags registered; see exec::punctured_server):
         // every tag, punctured or not, asked for by a client
-        for hist in 0..crate::exec::PUNCTURE_HISTORIES.len() as u64 {
+        // (under the Miri interpreter only the first two histories: generating a 256-tag key there
+        // takes minutes per server)
+        let n_hist = if ctx.stage == "miri" { 2 } else { crate::exec::PUNCTURE_HISTORIES.len() as u64 };
+        for hist in 0..n_hist {
           for md in 0..=255u8 {
             let ver = (md as u64 + hist) & 1;
             let p = if md % 3 == 0 { bp.as_bytes().to_vec() } else { points[(md as usize) % points.len()].clone() };
